@@ -45,6 +45,20 @@ fn amplified(len: usize, r: &mut Rng, quick: bool) -> Vec<Fault> {
         }
         p += step;
     }
+    // 16-bit length fields (JPEG segments, TIFF counts, ID3 / GIF sizes): small and extreme values
+    // at every position; in the quick tier on every fourth position
+    for p in (0..len.saturating_sub(1)).step_by(if quick { 4 } else { 1 }) {
+        let k = r.below(4) as usize;
+        for (i, val) in [0u16, 2, 3, 9, 17, 25, 26, 27, 28, 0x7FFF, 0xFFFF].iter().enumerate() {
+            if quick && i % 4 != k {
+                continue;
+            }
+            v.push(Fault::Put16 { pos: p, val: *val, be: true });
+            if !quick {
+                v.push(Fault::Put16 { pos: p, val: *val, be: false });
+            }
+        }
+    }
     // truncations and block faults
     for l in (0..len).step_by(step) {
         v.push(Fault::Truncate { len: l });
